@@ -36,8 +36,8 @@ def val(o):
     return np.array(o.data) if isinstance(o, UTPM) else np.asarray(o)
 
 
-def make_case(rng, tier):
-    kinds = ['ew', 'ew', 'bin', 'bin', 'binc', 'getitem', 'sum', 'transpose', 'reshape', 'dot', 'dotc', 'outer', 'prod', 'buffer', 'buffer', 'powbin', 'fftfilter', 'symvec', 'maxmin', 'bufferiop']
+def make_case(rng, tier, prog0=None):
+    kinds = ['ew', 'ew', 'bin', 'bin', 'binc', 'getitem', 'sum', 'transpose', 'reshape', 'dot', 'dotc', 'outer', 'prod', 'buffer', 'buffer', 'powbin', 'fftfilter', 'symvec', 'maxmin', 'bufferiop', 'tri', 'cplxparts', 'setarr', 'realalias']
     prog = gen_program(rng, maxsteps=6 if tier == 'quick' else 12, kinds=kinds)
     if rng.random() < 0.08:
         # symvec of a non-symmetric square matrix with an explicit UPLO through the dispatcher, then vecsym, then whatever follows
@@ -50,6 +50,8 @@ def make_case(rng, tier):
         prog = {'inputs': [[n]], 'steps': [{'op': 'ew', 'fn': 'pow2', 'a': 0}, {'op': 'binc', 'fn': 'add', 'a': 1, 'c': 1.0, 'side': 'r'},
                                             {'op': 'binc', 'fn': 'mul', 'a': 0, 'c': 0.5, 'side': 'r'}, {'op': 'binc', 'fn': 'add', 'a': 3, 'c': 1.0, 'side': 'r'},
                                             {'op': 'bin', 'fn': 'pow', 'a': 2, 'b': 4}], 'out': 5, 'out_shape': [n]}
+    if prog0 is not None:
+        prog = prog0
     rec_kind = rng.choice(['nd', 'ut', 'ut'])
     D, P = rng.randint(1, 3), rng.randint(1, 2)
     rec = [mk_input(rng, s, rec_kind, D, P) for s in prog['inputs']]
@@ -355,8 +357,12 @@ def run(ctx):
         f = late_check(case)
         if f:
             ctx.report(case, 'failure', f)
-    for i in range(300 if ctx.tier == 'quick' else 4000):
-        case = make_case(rng, ctx.tier)
+    # one program per recordable operation on every run (element-wise functions, structural and linear-algebra nodes),
+    # then generated programs
+    from props import c03
+    singles = c03.single_op_programs(rng)
+    for i in range(len(singles) + (300 if ctx.tier == 'quick' else 4000)):
+        case = make_case(rng, ctx.tier, singles[i] if i < len(singles) else None)
         ctx.evaluations += 1
         for o in programs.ops_used(case['prog']):
             ctx.count('op=' + o.split(':')[0])
